@@ -227,7 +227,10 @@ def gen_args(name, rng, tier):
     if name == "SimulateControl":
         n, S, Ml, Gl = g_dyn(rng, 3)
         N = int(rng.integers(2, 9))
-        Mt = [m.copy() for m in Ml]
+        if rng.random() < 0.3:
+            Mt = [m.copy() for m in Ml]
+        else:       # the controller's model of the link frames differs from the plant's
+            Mt = [np.ascontiguousarray(m @ se3.rp(se3.exp3(rng.normal(size=3) * 0.05), rng.normal(size=3) * 0.02)) for m in Ml]
         Gt = [g * rng.uniform(0.9, 1.1) for g in Gl]
         return (rng.uniform(-1, 1, n), rng.normal(size=n) * 0.2, rng.normal(size=3) * 9.81, rng.normal(size=(N, 6)), Ml, Gl, S,
                 rng.uniform(-1, 1, (N, n)), rng.normal(size=(N, n)) * 0.2, rng.normal(size=(N, n)) * 0.2, rng.normal(size=3) * 9.81,
